@@ -163,8 +163,8 @@ def ob_select_race(report, prop):
         parent = stream_handler_fn(ex.prog)
         # the poll closure of the `tokio::select!` expansion: the (only) closure under do_handle that draws the random start index
         cands = e2.find_closures_calling(ex.prog, parent, r'thread_rng_n$')
-        if not cands:       # the race may live in a helper method of the same impl
-            cands = [c for m in e2.methods_of(ex.prog, 'BiStreamRequestHandler').values() for c in e2.find_closures_calling(ex.prog, m, r'thread_rng_n$')]
+        if not cands:       # the race may live in a helper the handler calls (a method of the same impl or a free function of the crate)
+            cands = e2.find_closures_calling(ex.prog, parent, r'thread_rng_n$', transitive=True)
         if len(cands) != 1:
             raise NotFound(f'select! poll closure of the per-stream handler: {len(cands)} candidates')
         fn = cands[0]
@@ -256,7 +256,7 @@ def ob_do_rpc(report, prop):
             k(p, MD.NONE)
         models = [(r'Connection::open_bi$', m_open_bi), (r'(^|::)write_request$', m_wreq), (r'(^|::)read_response$', m_rresp), (r'Framed(Read|Write)::new$', m_framed),
                   (r'SendStream::finish$', m_finish), (r'Framed(Read|Write)::get_mut$', m_get_mut), (r'Extensions::insert$', m_ext_insert)] + CONNECTION_MODELS
-        ex = e2.executor('anemo', models, max_depth=1)
+        ex = e2.executor('anemo', models, max_depth=3)
         parent = find_method(ex.prog, 'Peer', 'do_rpc')
         fn = find_closure(ex.prog, parent, [0])
         p, args = coroutine_start(ex, fn)
@@ -296,4 +296,4 @@ def ob_do_rpc(report, prop):
             return ob.done([ex], 'inconclusive', 'no successful path', paths=len(res))
         ob.done([ex], 'held', '', {'paths': len(res), 'success_paths': n_ok}, paths=len(res))
     return guarded(report, 'one_stream_per_rpc', 'Peer::do_rpc: one fresh bi stream on the peer\'s connection; the caller\'s request is written to its send half, the half is finished, the response is read from '
-                   'its receive half and returned, tagged with the connection\'s authenticated peer id', ['Peer::do_rpc'], {'inline_depth': 1}, body)
+                   'its receive half and returned, tagged with the connection\'s authenticated peer id', ['Peer::do_rpc'], {'inline_depth': 3}, body)
